@@ -10,6 +10,7 @@ CONSTANTS
   Payloads <- MC_Payloads
   Keys <- MC_Keys
   Deviations = {}
+  CanonName = "sac"
   Small = TRUE
 INIT Init
 NEXT Next
